@@ -636,6 +636,7 @@ def configs(tier, rng):
       dict(kind='ensemble', features=[A, Bd, N], model=dict(ok, lattices='rtl_layer', num_lattices=2, lattice_rank=2)),
       dict(kind='ensemble', features=[A, Bd, N], model=dict(ok, lattices='rtl_layer', num_lattices=None, lattice_rank=2)),
       dict(kind='ensemble', features=[A, Bd, N], model=dict(ok, lattices='rtl_layer', num_lattices=1, lattice_rank=2)),
+      dict(kind='ensemble', features=[A, Bd], model=dict(ok, lattices='rtl_layer', num_lattices=1, lattice_rank=2)),
       dict(kind='ensemble', features=[A, dict(Bd, lattice_size=3), N], model=dict(ok, lattices='rtl_layer', num_lattices=2, lattice_rank=2)),
       dict(kind='ensemble', features=[A, Bd, dict(N, unimodality='peak', lattice_size=3)],
            model=dict(ok, lattices='rtl_layer', num_lattices=2, lattice_rank=2)),
